@@ -40,7 +40,7 @@ pub fn pairs(tier: Tier) -> Vec<Pair> {
     };
     let mut ws: Vec<(String, J)> = bases().into_iter().map(|(n, j)| (n.to_string(), j)).collect();
     // plus a slice of the bounded-exhaustive schema universe
-    let stride = if tier == Tier::Quick { 7 } else { 2 };
+    let stride = if tier == Tier::Quick { 2 } else { 1 };
     for sc in corpus::build(2, false) {
         if sc.idx % stride == 0 && !sc.label.starts_with("wide") {
             ws.push((format!("su{}", sc.idx), sc.json.clone()));
@@ -52,19 +52,14 @@ pub fn pairs(tier: Tier) -> Vec<Pair> {
         for s1 in &first {
             push(name, vec![s1.name], s1.safe, w, s1.reader.clone(), &mut out);
         }
-        // two steps on the hand-written bases
-        let two = !name.starts_with("su") || tier == Tier::Thorough;
-        if two {
-            for s1 in &first {
-                if name.starts_with("su") && !c09_safe(s1.name) {
-                    continue;
-                }
-                for s2 in g.variants(&s1.reader) {
-                    if tier == Tier::Quick && !(c09_safe(s1.name) || c09_safe(s2.name)) {
-                        continue;
-                    }
-                    push(name, vec![s1.name, s2.name], s1.safe && s2.safe, w, s2.reader, &mut out);
-                }
+        // two steps: every second step after every first step on the hand-written bases; on the universe
+        // slice after the always-safe first steps (quick) or after every first step (thorough)
+        for s1 in &first {
+            if tier == Tier::Quick && name.starts_with("su") && !c09_safe(s1.name) {
+                continue;
+            }
+            for s2 in g.variants(&s1.reader) {
+                push(name, vec![s1.name, s2.name], s1.safe && s2.safe, w, s2.reader, &mut out);
             }
         }
     }
@@ -380,7 +375,7 @@ pub fn run_c09(tier: Tier, replay: Option<&J>) -> i32 {
     let only = replay.and_then(|r| r["pair_idx"].as_u64()).map(|x| x as usize);
     // ordered pairs of a bounded-exhaustive slice
     let slice: Vec<crate::corpus::Sc> = corpus::build(2, false).into_iter().filter(|s| !s.label.starts_with("wide")).collect();
-    let nslice = if tier == Tier::Quick { 60 } else { 300 };
+    let nslice = if tier == Tier::Quick { 300 } else { 700 };
     let step = (slice.len() / nslice).max(1);
     let picked: Vec<&crate::corpus::Sc> = slice.iter().step_by(step).collect();
     let mut st = ps
